@@ -20,6 +20,10 @@ def run(ctx):
     corr.load(ctx, 0, texts=texts, loaders=('full',))
     tags = [t for t in c01.tag_vocabulary(ctx) if 'python' in t or ctx.rng.random() < 0.2]
     docs = c01.tagged_docs(ctx, tags, ctx.n(3000, 30000))
+    # objects of an already-imported module that would DO something if used (iterators of several kinds, a callable): every position
+    for nm in ('ticker', 'letters', 'counter', 'mapped', 'generator', 'lazy'):
+        for sh in ("%s ''", '%s ""', '- %s ""\n- 1', "!!python/tuple [%s '', 1]", "? %s ''\n: 1", "k: %s ''", "- &a %s ''\n- *a", "[%s '']", "{k: %s ''}"):
+            docs.append(sh % ('!!python/name:tools.c04names.' + nm))
     cases = []
     for t in docs:
         named = re.findall(r'python/name:([A-Za-z0-9_.]+)', t)
